@@ -167,6 +167,40 @@ pub fn sp_wire(p: &SP) -> String {
     }
 }
 
+/// an implementation output back as a neutral tree (to feed it into the next analysis)
+pub fn sp_to_a(p: &SP) -> A {
+    match p {
+        SP::Unsatisfiable => A::Unsat,
+        SP::Trivial => A::Triv,
+        SP::Key(k) => A::Key(unname(k)),
+        SP::After(t) => A::After(t.to_consensus_u32()),
+        SP::Older(t) => A::Older(t.to_consensus_u32()),
+        SP::Sha256(h) => A::Hash(0, unname(h)),
+        SP::Hash256(h) => A::Hash(1, unname(h)),
+        SP::Ripemd160(h) => A::Hash(2, unname(h)),
+        SP::Hash160(h) => A::Hash(3, unname(h)),
+        SP::Thresh(t) => A::Thresh(t.k(), t.iter().map(|x| sp_to_a(x)).collect()),
+    }
+}
+
+/// library text with every threshold spelled `thresh(k,…)` (no and/or sugar)
+fn a_text(a: &A) -> String {
+    match a {
+        A::Unsat => "UNSATISFIABLE".into(),
+        A::Triv => "TRIVIAL".into(),
+        A::Key(i) => format!("pk({})", name(*i)),
+        A::After(n) => format!("after({})", n),
+        A::Older(n) => format!("older({})", n),
+        A::Hash(k, h) => format!("{}({})", HASHES[*k as usize], name(*h)),
+        A::Thresh(k, subs) => {
+            let mut s = format!("thresh({}", k);
+            for x in subs { s.push(','); s.push_str(&a_text(x)); }
+            s.push(')');
+            s
+        }
+    }
+}
+
 fn atoms_a(a: &A, acc: &mut Vec<A>) {
     match a {
         A::Unsat | A::Triv => {}
@@ -238,6 +272,10 @@ struct Ctx<'a> {
     parse_same: u64,
     parse_unparseable: u64,
     slice: u64,
+    /// outputs of analyses waiting to be analysed themselves (normalized twice, at_age after
+    /// at_lock_time, sorted then normalized, …); `deriving` stops the chain after one step
+    pending: Vec<A>,
+    deriving: bool,
 }
 
 impl<'a> Ctx<'a> {
@@ -262,12 +300,16 @@ impl<'a> Ctx<'a> {
         let w = a_wire(a);
         if !self.seen.insert(w.clone()) { return; }
         self.out.count("abstract-policies");
-        // the text route, where there is one: must give the same value
-        match guard(|| SP::from_str(&p.to_string())) {
-            Some(Ok(q)) if q == p => self.parse_same += 1,
-            Some(Ok(q)) => self.out.line(&format!("C parse-roundtrip {}", w), &format!("DIFFERS:{}", sp_wire(&q))),
-            _ => self.parse_unparseable += 1,
-        }
+        // the text route, where there is one: must give the same value; the analyses below then
+        // run on the PARSED object (route from_str -> analysis), otherwise on the enum-built one
+        let p = match guard(|| SP::from_str(&p.to_string())) {
+            Some(Ok(q)) if q == p => { self.parse_same += 1; q }
+            Some(Ok(q)) => { self.out.line(&format!("C parse-roundtrip {}", w), &format!("DIFFERS:{}", sp_wire(&q))); p }
+            _ => { self.parse_unparseable += 1; p }
+        };
+        // `Liftable for Semantic` is the identity
+        let sl = match guard(|| p.lift()) { Some(Ok(q)) => sp_wire(&q), Some(Err(_)) => "ERR".into(), None => "PANIC".into() };
+        self.out.line(&format!("C slift {}", w), &sl);
         let small = judge && n_distinct(&[a]) <= 9;
         let norm = guard(|| p.clone().normalized());
         self.out.line(&format!("C normalize {}", w), &or_panic(norm.as_ref().map(sp_wire)));
@@ -278,10 +320,16 @@ impl<'a> Ctx<'a> {
             self.out.line(&format!("J nf {} {}", w, or_panic(norm.as_ref().map(sp_wire))), "ok");
         }
         self.nopanic("normalize", &w, &or_panic(norm.as_ref().map(sp_wire)));
+        if !self.deriving {
+            if let Some(n) = norm.as_ref() { self.pending.push(sp_to_a(n)); }
+        }
         let sorted = guard(|| p.clone().sorted());
         let sorted_w = or_panic(sorted.as_ref().map(sp_wire));
         self.out.line(&format!("C sort {}", w), &sorted_w);
         self.nopanic("sort", &w, &sorted_w);
+        if !self.deriving && self.slice % 4 == 0 {
+            if let Some(x) = sorted.as_ref() { self.pending.push(sp_to_a(x)); }
+        }
         if small {
             self.out.line(&format!("J equiv {} {}", w, sorted_w), "ok");
         }
@@ -329,6 +377,9 @@ impl<'a> Ctx<'a> {
             if small { self.out.line(&format!("J atage {} {} {}", age, w, r), "ok"); }
             if judge { self.out.line(&format!("J nf atage:{}:{} {}", age, w, r), "ok"); }
             self.nopanic("atage", &format!("{} {}", age, w), &r);
+            if !self.deriving && has_older && has_after && age == 144 {
+                if let Some(q) = guard(|| p.clone().at_age(rl)) { self.pending.push(sp_to_a(&q)); }
+            }
         }
         let lts: Vec<u32> = if has_after { lts_in.to_vec() } else { vec![144] };
         for n in lts {
@@ -338,7 +389,44 @@ impl<'a> Ctx<'a> {
             if small { self.out.line(&format!("J atlock {} {} {}", n, w, r), "ok"); }
             if judge { self.out.line(&format!("J nf atlock:{}:{} {}", n, w, r), "ok"); }
             self.nopanic("atlock", &format!("{} {}", n, w), &r);
+            if !self.deriving && has_older && has_after && n == 144 {
+                if let Some(q) = guard(|| p.clone().at_lock_time(lt)) { self.pending.push(sp_to_a(&q)); }
+            }
         }
+    }
+
+    /// policies that the constructors / the parser refuse TODAY, one reason each: the refusal
+    /// itself is compared with the model of the rule; should a rule let one through, the value
+    /// goes through every analysis and judge like any other policy
+    fn refused_ops(&mut self, a: &A) {
+        let w = a_wire(a);
+        let built = a_build(a);
+        self.out.line(&format!("C constructible {}", w), if built.is_some() { "ok" } else { "refused" });
+        let parsed = guard(|| SP::from_str(&a_text(a)));
+        let pr = match &parsed { Some(Ok(_)) => "ok", Some(Err(_)) => "refused", None => "PANIC" };
+        self.out.line(&format!("C fromstr {}", w), pr);
+        self.nopanic("fromstr", &w, pr);
+        if built.is_some() { self.abstract_ops(a, 12, true); }
+        if let Some(Ok(q)) = parsed {
+            let back = sp_to_a(&q);
+            if back != *a { self.out.line(&format!("C parse-roundtrip {}", w), &format!("DIFFERS:{}", sp_wire(&q))); }
+            self.abstract_ops(&back, 12, true);
+        }
+    }
+
+    /// `Concrete::from_str` on a policy that is expressible as text (binary and/or, weights >= 1):
+    /// accepted iff `check_timelocks` accepts
+    fn cparse_ops(&mut self, c: &CA) {
+        let p = match ca_build(c) { Some(p) => p, None => return };
+        let w = ca_wire(c);
+        let r = match guard(|| CP::from_str(&p.to_string())) {
+            Some(Ok(q)) => if q == p { "ok".to_string() } else { "DIFFERS".into() },
+            Some(Err(_)) => "refused".into(),
+            None => "PANIC".into(),
+        };
+        self.out.line(&format!("C cparse {}", w), &r);
+        self.nopanic("cparse", &w, &r);
+        self.concrete_ops(c, false);
     }
 
     fn entails_ops(&mut self, a: &A, b: &A, judge_unnormalized: bool) {
@@ -374,7 +462,10 @@ impl<'a> Ctx<'a> {
             // the property as stated: refused iff some SATISFIABLE path mixes height and time
             self.out.line(&format!("J checktl {} {}", w, tl), "ok");
         }
-        let lifted = match guard(|| p.lift()) {
+        // both routes of `Liftable`: the policy itself and `Arc<Concrete>` (alternating)
+        self.slice += 1;
+        let via_arc = self.slice % 2 == 0;
+        let lifted = match guard(|| if via_arc { Arc::new(p.clone()).lift() } else { p.lift() }) {
             Some(Ok(s)) => sp_wire(&s),
             Some(Err(miniscript::Error::Threshold(_))) => "ERRTHRESH".into(),
             Some(Err(_)) => "ERR".into(),
@@ -477,7 +568,7 @@ pub fn run(out: &mut Out, thorough: bool, seed: u64) {
     let hook = std::panic::take_hook();
     std::panic::set_hook(Box::new(|_| {}));
     let mut rng = Rng(seed ^ 0xC18);
-    let mut cx = Ctx { out, seen: BTreeSet::new(), parse_same: 0, parse_unparseable: 0, slice: 0 };
+    let mut cx = Ctx { out, seen: BTreeSet::new(), parse_same: 0, parse_unparseable: 0, slice: 0, pending: vec![], deriving: false };
 
     // ---- leaf alphabets
     let full: Vec<A> = vec![
@@ -580,6 +671,93 @@ pub fn run(out: &mut Out, thorough: bool, seed: u64) {
         let many: Vec<A> = (0..12).map(A::Key).chain([A::Triv, A::Unsat, A::Older(1)]).collect();
         let a = rand_a(&mut rng, 2, &many, 25);
         cx.abstract_ops(&a, 2, true);
+    }
+
+    // ---- 2b. STATES. Every analysis runs on raw un-normalised values (all of the above), on
+    // designated towers whose normal form depends on what the children turn into, and on the
+    // OUTPUT of another analysis (normalized twice, sorted then normalized, at_age after
+    // at_lock_time and vice versa: the `pending` queue below)
+    {
+        let (a, b, c, d) = (A::Key(0), A::Key(1), A::Key(2), A::Key(3));
+        let (t, u) = (A::Triv, A::Unsat);
+        let (o, ot, af) = (A::Older(144), A::Older(4194305), A::After(144));
+        let and = |v: Vec<A>| A::Thresh(v.len(), v);
+        let or = |v: Vec<A>| A::Thresh(1, v);
+        let towers: Vec<A> = vec![
+            // nested and-in-and-in-and, or-in-or-in-or, alternations
+            and(vec![and(vec![and(vec![a.clone(), b.clone()]), c.clone()]), d.clone()]),
+            or(vec![or(vec![or(vec![a.clone(), b.clone()]), c.clone()]), d.clone()]),
+            and(vec![or(vec![and(vec![a.clone(), b.clone()]), c.clone()]), or(vec![d.clone(), o.clone()])]),
+            or(vec![and(vec![or(vec![a.clone(), b.clone()]), c.clone()]), and(vec![d.clone(), af.clone()])]),
+            // one-child towers
+            or(vec![or(vec![A::Thresh(2, vec![a.clone(), b.clone(), c.clone()])])]),
+            and(vec![or(vec![and(vec![a.clone()])])]),
+            or(vec![or(vec![or(vec![t.clone()])])]),
+            and(vec![and(vec![u.clone()])]),
+            // dead conjunctions below live ors / thresholds
+            or(vec![a.clone(), and(vec![u.clone(), b.clone()])]),
+            or(vec![and(vec![b.clone(), u.clone()]), a.clone()]),
+            A::Thresh(2, vec![a.clone(), and(vec![u.clone(), b.clone(), c.clone()]), d.clone()]),
+            A::Thresh(2, vec![a.clone(), and(vec![b.clone(), and(vec![c.clone(), u.clone()])]), or(vec![d.clone(), u.clone()])]),
+            or(vec![and(vec![u.clone(), o.clone()]), and(vec![a.clone(), ot.clone()])]),
+            A::Thresh(2, vec![and(vec![u.clone(), a.clone()]), and(vec![u.clone(), b.clone()]), c.clone()]),
+            // the kind of the node changes once constants are removed, children of the new kind
+            A::Thresh(3, vec![t.clone(), and(vec![a.clone(), b.clone()]), and(vec![c.clone(), d.clone()])]),
+            A::Thresh(2, vec![t.clone(), or(vec![a.clone(), b.clone()]), or(vec![c.clone(), d.clone()])]),
+            A::Thresh(2, vec![u.clone(), and(vec![a.clone(), b.clone()]), and(vec![c.clone(), d.clone()])]),
+            A::Thresh(1, vec![u.clone(), or(vec![a.clone(), b.clone()]), or(vec![c.clone(), d.clone()])]),
+            A::Thresh(3, vec![t.clone(), t.clone(), or(vec![a.clone(), or(vec![b.clone(), c.clone()])]), d.clone()]),
+            A::Thresh(2, vec![t.clone(), u.clone(), and(vec![a.clone(), and(vec![b.clone(), o.clone()])])]),
+            A::Thresh(3, vec![a.clone(), t.clone(), u.clone(), and(vec![b.clone(), c.clone()]), or(vec![d.clone(), af.clone()])]),
+        ];
+        // constants at every child position of every tower
+        let mut all: Vec<A> = towers.clone();
+        for tw in towers.iter() {
+            if let A::Thresh(k, subs) = tw {
+                for pos in 0..=subs.len() {
+                    for cst in [&t, &u] {
+                        let mut v = subs.clone();
+                        v.insert(pos, cst.clone());
+                        all.push(A::Thresh(*k, v.clone()));
+                        all.push(A::Thresh(k + 1, v));
+                    }
+                }
+            }
+        }
+        for x in all.iter() { cx.abstract_ops(x, 12, true); }
+    }
+    // ---- 2c. REFUSED TODAY, one reason each (lock ranges, threshold k, spelling of and/or as
+    // thresh) next to their accepted neighbours
+    for a in [
+        A::After(0), A::After(1), A::After(2147483647), A::After(2147483648), A::After(4294967295),
+        A::Older(0), A::Older(1), A::Older(2147483647), A::Older(2147483648), A::Older(4294967295),
+        A::Thresh(0, vec![A::Key(0), A::Key(1), A::Key(2)]),
+        A::Thresh(1, vec![A::Key(0), A::Key(1), A::Key(2)]),
+        A::Thresh(2, vec![A::Key(0), A::Key(1), A::Key(2)]),
+        A::Thresh(3, vec![A::Key(0), A::Key(1), A::Key(2)]),
+        A::Thresh(4, vec![A::Key(0), A::Key(1), A::Key(2)]),
+        A::Thresh(0, vec![]), A::Thresh(1, vec![]), A::Thresh(1, vec![A::Key(0)]), A::Thresh(2, vec![A::Key(0)]),
+        A::Thresh(2, vec![A::Key(0), A::After(0), A::Key(1)]),
+        A::Thresh(2, vec![A::Key(0), A::Older(2147483648), A::Key(1)]),
+        A::Thresh(2, vec![A::Key(0), A::Thresh(0, vec![A::Key(1), A::Key(2)]), A::Key(3)]),
+        A::Thresh(2, vec![A::Key(0), A::Thresh(3, vec![A::Key(1), A::Key(2)]), A::Key(3)]),
+        A::Thresh(2, vec![A::Key(0), A::Thresh(2, vec![A::Key(1), A::Key(2), A::Older(1)]), A::Key(3)]),
+    ] { cx.refused_ops(&a); }
+    // ---- 2d. the outputs of the analyses above, analysed again (one step)
+    {
+        cx.deriving = true;
+        let pending = std::mem::take(&mut cx.pending);
+        let total = pending.len();
+        let cap = if thorough { usize::MAX } else { 9000 };
+        let mut done = 0usize;
+        for a in pending.iter() {
+            if done >= cap { break; }
+            let before = cx.seen.len();
+            cx.abstract_ops(a, 2, true);
+            if cx.seen.len() > before { done += 1; }
+        }
+        cx.out.note("derived_states", format!("{} outputs queued, {} new policies analysed again", total, done));
+        cx.deriving = false;
     }
 
     // ---- 3. entailment
@@ -768,12 +946,27 @@ pub fn run(out: &mut Out, thorough: bool, seed: u64) {
         CA::Thresh(1, vec![k2.clone(), CA::Thresh(2, vec![k1.clone(), k2.clone()])]),
     ] { cx.concrete_ops(&c, false); }
 
+    // REFUSED TODAY by `Concrete::from_str`, one reason each: every pair of lock units under a
+    // conjunction / a 2-of-3; the accepted neighbours (disjunction, different kinds)
+    {
+        let oh = CA::Leaf(A::Older(1)); let otm = CA::Leaf(A::Older(4194305));
+        let ah = CA::Leaf(A::After(1)); let atm = CA::Leaf(A::After(500000001));
+        let locks = [oh.clone(), otm.clone(), ah.clone(), atm.clone()];
+        for x in locks.iter() { for y in locks.iter() {
+            cx.cparse_ops(&CA::And(vec![x.clone(), y.clone()]));
+            cx.cparse_ops(&CA::Or(vec![(1, x.clone()), (2, y.clone())]));
+            cx.cparse_ops(&CA::Thresh(2, vec![x.clone(), y.clone(), k0.clone()]));
+            cx.cparse_ops(&CA::And(vec![k0.clone(), CA::Or(vec![(1, x.clone()), (1, CA::And(vec![y.clone(), k1.clone()]))])]));
+            cx.cparse_ops(&CA::And(vec![x.clone(), CA::Or(vec![(1, k0.clone()), (1, CA::And(vec![y.clone(), un_.clone()]))])]));
+        } }
+    }
+
     let (same, unp) = (cx.parse_same, cx.parse_unparseable);
     let n_abs = cx.seen.iter().filter(|s| !s.starts_with("c:")).count();
     let n_conc = cx.seen.len() - n_abs;
     drop(cx);
     out.note("domain", format!(
-        "abstract: all thresholds (every k) with 1-3 children over 13 leaves (3 keys, 1 hash, after 1/144/5e8/5e8+1, older 1/144/4194305, TRIVIAL, UNSATISFIABLE), depth 2 over 8 leaves + 55 depth-1 children (1-2 children exhaustive, 3-4 sampled), random depth<=4 width<=5 and width<=25; ages/lock times at every boundary; entailment: all pairs over a closed set of {} policies + random + 19/20/21/25 terminals; concrete: depth 1 exhaustive over 8 leaves, depth 2 sampled, random depth<=4, designated non-binary and/or and UNSATISFIABLE witnesses",
+        "abstract: all thresholds (every k) with 1-3 children over 13 leaves (3 keys, 1 hash, after 1/144/5e8/5e8+1, older 1/144/4194305, TRIVIAL, UNSATISFIABLE), depth 2 over 8 leaves + 55 depth-1 children (1-2 children exhaustive, 3-4 sampled), random depth<=4 width<=5 and width<=25; ages/lock times at every boundary; entailment: all pairs over a closed set of {} policies + random + 19/20/21/25 terminals; concrete: depth 1 exhaustive over 8 leaves, depth 2 sampled, random depth<=4, designated non-binary and/or and UNSATISFIABLE witnesses; STATES: every analysis on raw enum-built / parsed values, designated towers (nested and/or, one-child towers, dead conjunctions under live or/thresh, kind changes after constant removal, constants at every child position) and on the outputs of normalized / sorted / at_age / at_lock_time (one further step); REFUSED TODAY: lock values and threshold k outside the constructors' ranges, 1-of-n / n-of-n spelled thresh(), every pair of lock units under and / 2-of-3 through Concrete::from_str",
         es.len()));
     out.note("distinct_nontrivial", format!("{}", n_abs + n_conc));
     out.note("abstract_policies", format!("{}", n_abs));
